@@ -4,19 +4,22 @@ THOROUGH_SEEDS = 2      # the thorough enumeration of this driver is already min
 LEVEL = 'exploration'
 DEDUCTIVE = ['contracts.c10_stats', 'contracts.c20_array']
 BUDGET_S = {'quick': 200.0, 'thorough': 600.0}
-MIN_OBLIGATIONS = {'quick': 100, 'thorough': 100}
+MIN_OBLIGATIONS = {'quick': 1500, 'thorough': 1500}
 BOUNDED_FLOOR = {'quick': 10000, 'thorough': 30000}
 CONFIG_NOTE = {'quick': "chunked path of Data.compute_statistic for ranks 2-4, every kept axis, with and without a selection; extents, size, chunk limit and the observed index symbolic; "
-                        "iterate_chunks / find_chunk_shape / combine_slices: the C20 contracts", 'thorough': "same, rank 4 with every kept axis"}
+                        "iterate_chunks / find_chunk_shape / combine_slices: the C20 contracts; selection path of Data.compute_statistic for 15 view shapes (None, slices, integers, short tuples, stepped slices; ranks 1-3) x axis "
+                        "choices x something / nothing selected, with symbolic extents, slice bounds, integer indices and bounding box", 'thorough': "same, rank 4 chunking with every kept axis, every axis choice for rank-3 views"}
 TRUSTED_BASE = [
     "the recursive (non-chunked) compute_statistic call is specified, not proved: on a view that covers the reduced axes entirely and [a, b) on the kept axis it returns the b-a row statistics ROW(a..b-1) (bounded stand-in)",
     "np.zeros(n) is an array of n entries; result[a:b] = values needs b-a == len(values) (numpy assignment), represented point-wise at an arbitrary index",
+    "selection path: arrays are opaque tokens; the mask has the shape of the viewed array (contract of to_mask, C04) and its bounding box is any box 0 <= lo < hi <= extent per axis "
+    "(np.any / np.where / np.min / np.max on the projected mask); get_data, the reducer utils.compute_statistic and np.full / item assignment record their arguments",
     "float division and int() over mathematical reals (machine rounding not modelled); data.size is only known to exceed n_chunk_max (it is not tied to the product of the extents)",
     "the VC generator (pyvc) and z3 5.1.0",
 ]
 ASSUMPTIONS = [
-    "utils.compute_statistic (numpy nan-reducers), the minimal-subarray / view recombination / padding code and compute_histogram (numpy boolean indexing, fast_histogram) are numpy code out of reach of the "
-    "VC generator: bounded stand-in only, never counted as proved",
+    "utils.compute_statistic (numpy nan-reducers) and compute_histogram (numpy boolean indexing, fast_histogram) are numpy code out of reach of the VC generator: bounded stand-in only, never counted as proved; "
+    "of the minimal-subarray / view recombination / padding code the index bookkeeping is proved, what numpy does with those indices is swept",
     "views of zero elements are not generated (no documented shape); with finite=False both NaN-ignoring and NaN-propagating results are accepted and cells whose qualifying values contain an infinity are not compared for mean/median/percentile/sum",
     "histogram cases in which a data value lies within 1e-7 bin widths of an interior bin edge are not generated",
 ]
@@ -29,9 +32,12 @@ def bounded(tier, seed, R):
 
 MANIFEST_ENTRY = {
     "level": "exploration",
-    "technique": "contract-based deductive verification of the chunk loop of Data.compute_statistic against the iterate_chunks contract (pyvc + z3, modular: abstract generator with per-yield and exhaustion postconditions); "
+    "technique": "contract-based deductive verification of the chunk loop of Data.compute_statistic against the iterate_chunks contract (pyvc + z3, modular: abstract generator with per-yield and exhaustion postconditions) "
+                 "and of the index bookkeeping of its selection path (bounding box, view recombination, padding; arrays as opaque tokens, slice arithmetic symbolic); "
                  "bounded differential sweep of compute_statistic / compute_histogram and of the profile / histogram layer states against an independent textbook reference",
-    "text": "Proved for ranks 2-4 and all extents, sizes and chunk limits: the chunk shape given to iterate_chunks is admissible and whole on the reduced axes, every recursive call gets a view covering the reduced axes entirely with the "
+    "text": "Proved for every view made of slices, integers and missing trailing entries (ranks 1-3, all bounds and extents): with a selection the mask is cut to its bounding box, the values are fetched on exactly that box "
+            "of the viewed array (normalised view start + box; integers kept), the reducer receives both with the caller's axis and filters, the reduced result is placed at the box in a NaN array of the reduced shape of the viewed "
+            "array (returned as is when no axis is given), stepped views are reduced whole, and an empty selection gives NaN of the reduced shape. Proved for ranks 2-4 and all extents, sizes and chunk limits: the chunk shape given to iterate_chunks is admissible and whole on the reduced axes, every recursive call gets a view covering the reduced axes entirely with the "
             "same statistic arguments, every assignment into the result is in range and of matching length, and every entry of the result is the statistic of its row (given the contract of the unchunked call). iterate_chunks itself "
             "is proved in C20. Everything numpy-based (reducers, minimal sub-array, view recombination, padding, histograms, viewer layers) is explored only: shapes to 4-d, every axis subset, a view catalogue, 13 selection kinds, "
             "filters, chunk limits from 1 up, ranges/bins/log/weights for histograms.",
